@@ -33,12 +33,12 @@ package streams
 //@   ensures delta > 0 ==> result > 0
 
 // Well-formed flows, as package streams/flow builds and validates them: both directions exist, an entry point has a node
-// that belongs to the validated (ranked, hence acyclic) part of the graph, nodes and edges are allocated objects and no
-// edge slot is nil.
+// and every node of a direction belongs to the validated (ranked, hence acyclic) part of the graph - the validator
+// checks every node of a direction for cycles -, nodes and edges are allocated objects and no edge slot is nil.
 //@ ghost func nd(n internaltypes.FlowGraphNodeI) *streamflow.FlowGraphNode = n.(*streamflow.FlowGraphNode)
-//@ ghost func dirOK(d *streamflow.FlowDirection) bool = d != nil && (d.root != nil ==> d.root.node != nil && allocated(d.root.node) && d.root.node.ranked) && forall(k, string, in(k, d.nodes) ==> d.nodes[k] != nil && allocated(d.nodes[k]))
+//@ ghost func dirOK(d *streamflow.FlowDirection) bool = d != nil && (d.root != nil ==> d.root.node != nil && allocated(d.root.node) && d.root.node.ranked) && forall(k, string, in(k, d.nodes) ==> d.nodes[k] != nil && allocated(d.nodes[k]) && d.nodes[k].ranked)
 //@ ghost func flowOK(f internaltypes.FlowI) bool = ifacenil(f) || (typeis(f, *streamflow.Flow) && fw(f).flowRep != nil && fw(f).contextManager != nil && dirOK(fw(f).request) && dirOK(fw(f).response))
-//@ ghost func nodeArgOK(n internaltypes.FlowGraphNodeI) bool = ifacenil(n) || (typeis(n, *streamflow.FlowGraphNode) && allocated(nd(n)))
+//@ ghost func nodeArgOK(n internaltypes.FlowGraphNodeI) bool = ifacenil(n) || (typeis(n, *streamflow.FlowGraphNode) && allocated(nd(n)) && nd(n).ranked)
 //@ ghost func graphOK() bool = forall(n, *streamflow.FlowGraphNode, allocated(n) ==> forall(k, 0, len(n.edges), n.edges[k] != nil && (n.edges[k].node != nil ==> allocated(n.edges[k].node))))
 // the node at which executeFlow starts the walk (nil: nothing is executed)
 //@ ghost func startOf(f internaltypes.FlowI, a publictypes.APIStreamI, from internaltypes.FlowGraphNodeI) *streamflow.FlowGraphNode = ite(ifacenil(f) || len(dirOf(f, a).nodes) == 0 || dirOf(f, a).root == nil, nil, ite(ifacenil(from) || len(nd(from).edges) == 0, dirOf(f, a).root.node, nd(from).edges[0].node))
